@@ -64,6 +64,8 @@ def random_cases(ctx, count):
              {"k": "poly", "c": 0, "d": 3, "w": [1, 1]}, {"k": "rbf", "c": 0, "d": 1, "w": [2, 1]},
              {"k": "rbf", "c": 0, "d": 1, "w": [10, 1]}]
     q = [[0, 0], [2, -1], [-3, 3], [1, 1]]
+    # extreme query points for the Platt-calibrated model (validity clauses only): +-(1,1), +-(1,-1) scaled
+    eq = [[sx * k, sy * k] for (sx, sy) in ((1, 1), (-1, -1), (1, -1), (-1, 1)) for k in (10, 100, 1000)]
     for _ in range(count):
         kind = r.choice(["csvc", "csvc", "csvc", "nusvc", "oneclass", "esvr", "esvr", "nusvr"])
         n = r.choice([8, 12, 20, 30, 40, 60, 80])
@@ -114,6 +116,7 @@ def random_cases(ctx, count):
         ft = "f32" if (r.random() < 0.1 and kern["k"] == "lin" and max(cp[0] / cp[1], cn[0] / cn[1], c[0] / c[1]) <= 1) else "f64"
         out.append({"kind": kind, "inp": {"x": x, "y": y, "dim": 2, "kern": kern, "cp": cp, "cn": cn, "nu": nu, "c": c, "le": le,
                                           "shr": shr, "ft": ft, "tolx": 3 if ft == "f32" else 7, "q": q,
+                                          "eq": eq if (kind in ("csvc", "nusvc") and not shr) else [],
                                           "pr": kind in ("csvc", "nusvc") and not shr}})
     return out
 
